@@ -142,6 +142,11 @@ structure CoreOps where
   iterNext : Iter → M (Option Nat × Iter) := fun it => pure it.next
   iterNextBack : Iter → M (Option Nat × Iter) := fun it => pure it.nextBack
   iterLen : Iter → M Nat := CircBuf.Iter.len
+  iterMutNew : M Iter := CircBuf.Iter.new
+  iterMutOverRange : Bound → Bound → M Iter := CircBuf.Iter.overRange
+  iterMutNext : Iter → M (Option Nat × Iter) := fun it => pure it.next
+  iterMutNextBack : Iter → M (Option Nat × Iter) := fun it => pure it.nextBack
+  iterMutLen : Iter → M Nat := CircBuf.Iter.len
   drainNew : Bound → Bound → M Drain := CircBuf.Drain.new
   drainNext : Drain → M (Option Elem × Drain) := CircBuf.Drain.next
   drainNextBack : Drain → M (Option Elem × Drain) := CircBuf.Drain.nextBack
@@ -158,22 +163,21 @@ def runIterScript (o : CoreOps) (isMut : Bool) : List Char → Iter → List Str
     let b ← getBuf
     match c with
     | 'F' =>
-      -- (`IterMut` has its own, untranslated, copy of the stepping code: the model's)
-      let (r, it') ← (if isMut then pure it.next else o.iterNext it)
+      let (r, it') ← (if isMut then o.iterMutNext it else o.iterNext it)
       let tok := match r with
         | none => "F-"
         | some i => "F" ++ (showRef b (some i)).drop 1
       if isMut then (match r with | some i => bump i | none => pure ())
       runIterScript o isMut cs it' (tok :: acc)
     | 'B' =>
-      let (r, it') ← (if isMut then pure it.nextBack else o.iterNextBack it)
+      let (r, it') ← (if isMut then o.iterMutNextBack it else o.iterNextBack it)
       let tok := match r with
         | none => "B-"
         | some i => "B" ++ (showRef b (some i)).drop 1
       if isMut then (match r with | some i => bump i | none => pure ())
       runIterScript o isMut cs it' (tok :: acc)
     | 'L' => do
-      let n ← (if isMut then it.len else o.iterLen it)
+      let n ← (if isMut then o.iterMutLen it else o.iterLen it)
       runIterScript o isMut cs it (s!"L{n}" :: acc)
     | 'C' =>
       let tok := "C[" ++ " ".intercalate (it.remaining.map (showSlot b)) ++ "]"
@@ -362,7 +366,7 @@ def runOp (o : CoreOps) (toks : List String) : M String := do
     let r ← runIterScript o false (scriptOf sc) it []
     pure (";".intercalate r)
   | ["iter_mut", sc] => do
-    let it ← o.iterNew
+    let it ← o.iterMutNew
     let r ← runIterScript o true (scriptOf sc) it []
     pure (";".intercalate r)
   | ["range", sb, eb, sc] => match parseBound sb, parseBound eb with
@@ -373,7 +377,7 @@ def runOp (o : CoreOps) (toks : List String) : M String := do
     | _, _ => bad
   | ["range_mut", sb, eb, sc] => match parseBound sb, parseBound eb with
     | some sb, some eb => do
-      let it ← o.iterOverRange sb eb
+      let it ← o.iterMutOverRange sb eb
       let r ← runIterScript o true (scriptOf sc) it []
       pure (";".intercalate r)
     | _, _ => bad
